@@ -254,6 +254,22 @@ func judgeLimit(sc LimitScenario, tr *LimitTrace, inBubble bool) (fs []limitFind
 				}
 			}
 		}
+		// (4) no extra pause before the closure: once everything was forwarded and the input is
+		// closed the output closes at once, except after a complete last portion, where the
+		// documented final delay of at most one Interval may still run
+		{
+			ref := tr.InputClosed
+			if n := len(tr.Recv); n > 0 && tr.Recv[n-1] > ref {
+				ref = tr.Recv[n-1]
+			}
+			allowed := I / 100
+			if int64(total)%Q == 0 {
+				allowed += I
+			}
+			if tr.ClosedAt > ref+allowed {
+				add("C12", "late-close", "%d elements (Quantity %d): the last one left at %dns, the input was closed at %dns, but the output closed only at %dns - a pause although %s", total, sc.Q, prevRecv(tr, len(tr.Recv)), tr.InputClosed, tr.ClosedAt, map[bool]string{true: "the last portion was complete (one Interval would be allowed)", false: "the last portion was incomplete (no pause is due)"}[int64(total)%Q == 0])
+			}
+		}
 		if sc.Prefill == total && total > 0 {
 			// all N elements available up-front
 			slack := I / 100
@@ -329,6 +345,10 @@ func genLimitScenario(rng *rand.Rand, g limitGen) LimitScenario {
 		default:
 			sc.I = int64(10 * time.Millisecond)
 		}
+		if rng.IntN(25) == 0 {
+			year := int64(365 * 24 * time.Hour)
+			sc.I = []int64{1, 2, 7, year / 12, year}[rng.IntN(5)]
+		}
 	}
 	q := int(min(sc.Q, 64))
 	// total element count around the boundaries (for an "unlimited" Quantity: a few dozen elements)
@@ -350,6 +370,9 @@ func genLimitScenario(rng *rand.Rand, g limitGen) LimitScenario {
 		n = q*(1+rng.IntN(5)) + []int{-1, 1}[rng.IntN(2)]
 	default:
 		n = rng.IntN(6*q + 2)
+	}
+	if sc.I > int64(24*time.Hour) && n/q > 10 {
+		n = q*10 + n%q // the fake clock is a 64-bit nanosecond counter: keep the run within a century
 	}
 	maxN := 4000
 	if g.Real {
@@ -446,6 +469,37 @@ func genLimitScenario(rng *rand.Rand, g limitGen) LimitScenario {
 				dl = int64(20 * time.Millisecond)
 			}
 			sc.ConsDelay = append(sc.ConsDelay, dl)
+		}
+	}
+	// the fake clock is a 64-bit nanosecond counter that starts in the year 2000: keep the whole
+	// scenario within a few decades of virtual time
+	year := int64(365 * 24 * time.Hour)
+	for {
+		var est int64
+		for _, st := range sc.Steps {
+			est += st.Gap
+		}
+		for _, d := range sc.ConsDelay {
+			est += d
+		}
+		est += (int64(sc.total())/int64(min(sc.Q, 1<<40)) + 3) * sc.I
+		if est >= 0 && est < 40*year && sc.I <= 2*year {
+			break
+		}
+		if sc.I > int64(time.Hour) {
+			sc.I /= 16
+		}
+		for i := range sc.Steps {
+			sc.Steps[i].Gap = min(sc.Steps[i].Gap, 2*sc.I)
+		}
+		for i := range sc.ConsDelay {
+			sc.ConsDelay[i] = min(sc.ConsDelay[i], 2*sc.I)
+		}
+		if len(sc.Steps) > 8 {
+			sc.Steps = sc.Steps[:8]
+		}
+		if len(sc.ConsDelay) > 12 {
+			sc.ConsDelay = sc.ConsDelay[:12]
 		}
 	}
 	return sc
